@@ -137,7 +137,12 @@ class Monitor:
             if reused:
                 out.fail("packet-used-twice", f"packets already released are released again (seqs "
                          f"{sorted(p.seq for p in pks if p.abs in reused)[:6]}) although no arrival was >= 100 late", self.desc)
-            if self.last_frame_seq is not None and not serial_lt16(self.last_frame_seq, pks[0].seq):
+            far = self.last_frame_seq is not None and 0x4000 <= ((pks[0].seq - self.last_frame_seq) & 0xFFFF) <= 0xC000
+            if far:
+                # after a legitimate forward jump two successive frames may be about half the number space apart,
+                # where serial order is not defined
+                out.counters["order_undefined_far_apart"] += 1
+            elif self.last_frame_seq is not None and not serial_lt16(self.last_frame_seq, pks[0].seq):
                 out.fail("frames-out-of-order", f"frame starting at seq {pks[0].seq} released after one starting at "
                          f"{self.last_frame_seq}", self.desc)
         self.used |= absids
